@@ -13,6 +13,8 @@ def words(L, foreign=True):
     out = [tuple(w) for w in RN.all_words(T2, L)]
     if foreign:
         out += [(FOREIGN,), ("a", FOREIGN), (FOREIGN, "b"), ("a", FOREIGN, "b")]
+        # unknown symbols spelled like the grammar's variables
+        out += [("S",), ("A",), ("a", "S"), ("A", "b"), ("S", "A")]
     return out
 
 
